@@ -27,7 +27,8 @@ META = {
             "regenerated grammar; its transfer to the shipped parser is the differential tie below (and properties C01/C02): the REAL "
             "pest_grammars::json::JsonParser and pest_vm on json.pest are run on all strings of up to 5 (quick: 4 and a quarter of 5; thorough: 6) "
             "symbols of a 16-symbol JSON alphabet, on random documents of every shape (depth <= 20) and on near-misses, and must agree on acceptance "
-            "and on the whole token forest with extracted spec_parse json_grammar (kind model) and with the extracted RFC recogniser + tree_top (kind spec).",
+            "and on the whole token forest with extracted spec_parse json_grammar (kind model) and with the extracted RFC recogniser + tree_top (kind spec)."
+            " The differential runs are repeated on the shipped parser compiled with the workspace feature grammar-extras (pest_derive/grammar-extras named explicitly: a proc-macro does not share features with the run-time crates).",
     "note": "Trusted: Coq kernel incl. vm_compute (rule look-ups in the regenerated term, examples); tools/pest2v.py (cross-checked against pest_meta on "
             "every run); Peg/Spec.v as the reading of the documented semantics (its agreement with pest_vm is C01's correspondence); extraction "
             "(ExtrOcamlBasic only); harness/runner. Nesting depth and the call limit are resource limits outside the model (generated depth <= 20). "
@@ -69,9 +70,10 @@ def pre_setup():
 
 
 def setup():
-    rc, out, _ = harness_build(["c18"], features="grammars")
-    if rc != 0:
-        print(out[-2000:])
+    for feat in ("grammars", "grammars,extras"):
+        rc, out, _ = harness_build(["c18"], features=feat)
+        if rc != 0:
+            print(out[-2000:])
 
 
 # coq/gen/ is git-ignored output: make sure the generated file exists before `./check --setup` asks make for props/C18.vo
@@ -158,6 +160,12 @@ def run(tier, seed, replay=None):
                       {"theorem_or_correspondence": "C18 correspondence (build)", "log": bout[-3000:], "translator": terr}, no_failing_input=True)
         return res.finish()
     hbin = os.path.join(bdir, "c18")
+    # the same shipped parser with the workspace built with grammar-extras (cargo feature unification reaches pest_derive's generator)
+    xrc, xout, xdir = harness_build(["c18"], features="grammars,extras")
+    hbin_x = os.path.join(xdir, "c18") if xrc == 0 else None
+    if xrc != 0:
+        res.violation("harness does not build against the repository with grammar-extras (pest_grammars / json.pest do not compile under that feature)",
+                      {"theorem_or_correspondence": "C18 correspondence (build, grammar-extras)", "log": xout[-3000:]}, no_failing_input=True)
     grc, gout = sh("%s gram %s" % (hbin, os.path.join(REPO, JSON_PEST)), timeout=60)
     real_sx = gout.strip().split("\n")[-1] if grc == 0 else None
     translator_ok = terr is None and real_sx is not None and real_sx == sx
@@ -189,6 +197,8 @@ def run(tier, seed, replay=None):
     if replay:
         r = json.load(open(replay))
         case = r.get("case", "")
+        if r.get("features") == "grammar-extras" and hbin_x:
+            hbin = hbin_x
         m = one_case(hbin, runner, case.split(" ")[0]) if case else []
         for x in m:
             log("  %s case=%s (%r) impl=%s expected=%s" % (x["kind"], x["case"], show(x["case"]), x["impl"][:300], x["expected"][:300]))
@@ -220,6 +230,17 @@ def run(tier, seed, replay=None):
         cmds += ["near 40000 %d" % (seed * 1000 + 100 + i) for i in range(shards)]
         bound = "all strings of <= 6 symbols"
     mism, stats = run_cases(hbin, runner, cmds)
+    xstats = {}
+    if hbin_x:
+        # grammar-extras build: the exhaustive short strings, documents and near-misses again
+        xcmds = [c for c in cmds if c.startswith("exhaustive") or c.startswith("deep") or c.startswith("file")]
+        xcmds += [c for c in cmds if c.startswith("near")][:4 if tier == "quick" else None] + [c for c in cmds if c.startswith("random")][:2 if tier == "quick" else None]
+        xm, xstats = run_cases(hbin_x, runner, xcmds)
+        seen_cases = set((m["kind"], m["case"]) for m in mism)
+        for m in xm:
+            if (m["kind"], m["case"]) not in seen_cases:      # what only the grammar-extras build shows
+                m["features"] = "grammar-extras"
+                mism.append(m)
     spec_m = [m for m in mism if m["kind"] == "spec"]
     model_m = [m for m in mism if m["kind"] == "model"]
     other_m = [m for m in mism if m["kind"] not in ("spec", "model")]
@@ -239,16 +260,20 @@ def run(tier, seed, replay=None):
     lemma = failed_lemma(thm["log"]) if not thm["ok"] else None
     if spec_m:
         worst = min(spec_m, key=lambda m: (len(m["case"]), m["case"]))
+        feat = worst.get("features")
+        if feat and hbin_x:
+            hbin = hbin_x
         small = minimise(hbin, runner, worst["case"].split(" ")[0], "spec")
         d = ([x for x in one_case(hbin, runner, small) if x["kind"] == "spec"] or [worst])[0]
         accepted = d["impl"].startswith("Ok")
-        res.violation("the shipped JsonParser %s %r, which %s a JSON text per RFC 8259 (%d disagreeing inputs in this run)%s" % (
-            "accepts" if accepted else "rejects", show(small), "is NOT" if accepted and not d["expected"].startswith("Ok") else
+        res.violation("the shipped JsonParser%s %s %r, which %s a JSON text per RFC 8259 (%d disagreeing inputs in this run)%s" % (
+            " (workspace built with grammar-extras)" if feat else "", "accepts" if accepted else "rejects", show(small), "is NOT" if accepted and not d["expected"].startswith("Ok") else
             ("IS" if not accepted else "is, but with a different token tree for"), len(spec_m),
             "; the proof breaks at %s" % lemma if lemma else ""),
             {"theorem_or_correspondence": "C18 oracle: pest_grammars::json::JsonParser vs extracted rfc_parse/tree_top (RFC 8259)" +
              ("; C18_json_is_rfc8259 no longer checks" if not thm["ok"] else ""),
              "case": small, "input_text": show(small), "impl": d["impl"], "spec": d["expected"], "minimised_from": worst["case"],
+             "features": feat or "default",
              "other_failing_inputs": [show(m["case"]) for m in sorted(spec_m, key=lambda m: len(m["case"]))[:12]], "proof_problems": problems})
     elif model_m:
         worst = min(model_m, key=lambda m: (len(m["case"]), m["case"]))
@@ -266,6 +291,7 @@ def run(tier, seed, replay=None):
                                             "translator": terr, "searched": stats}, no_failing_input=True)
 
     res.coverage.update({
+        "grammar_extras_build_evaluations": xstats.get("evaluations", 0),
         "evaluations": stats.get("evaluations", 0),
         "distinct_nontrivial": stats.get("distinct_nontrivial", 0),
         "rule": "one evaluation = one input string given to the real pest_grammars::json::JsonParser::parse(Rule::json, _) and to pest_vm on "
